@@ -63,7 +63,7 @@ def gen_live(rng, flavour):
         "image_with_complete": rng.random() < 0.7,
         "max_steps": 600,
     }
-    mix = {"p_act": rng.choice([0.6, 0.9]), "p_place": rng.choice([0.4, 0.6]), "w_cancel": 2, "w_update": 1, "w_replace": 2, "packages": rng.random() < 0.6, "p_sp": rng.choice([0.0, 0.1]), "p_fok": rng.choice([0.0, 0.1])}
+    mix = {"p_act": rng.choice([0.6, 0.9]), "p_place": rng.choice([0.4, 0.6]), "w_cancel": 2, "w_update": 1, "w_replace": 2, "packages": rng.random() < 0.6, "p_sp": rng.choice([0.0, 0.1, 0.3]), "p_fok": rng.choice([0.0, 0.1])}
     for st in sc["strategies"]:
         for mi in st["markets"]:
             gen_actions(rng, markets[mi], st["name"], mix)
